@@ -19,6 +19,7 @@ func newC16RuleInst() *c16Inst {
 	objs := map[string]*c16Obj{
 		"chainF": {"chainF", "appchain", fix.ChainF, constant.AppchainMgrContractAddr, "appchain-" + fix.ChainF, ""},
 		"chainW": {"chainW", "appchain", fix.ChainW, constant.AppchainMgrContractAddr, "appchain-" + fix.ChainW, ""},
+		"svcW":   {"svcW", "service", fix.ChainW + ":" + fix.SvcW, constant.ServiceMgrContractAddr, "service-" + fix.ChainW + ":" + fix.SvcW, ""},
 		"rF0":    {"rF0", "rule", validator.FabricRuleAddr, constant.RuleManagerContractAddr, rk(fix.ChainF), fix.ChainF},
 		"rF1":    {"rF1", "rule", validator.SimFabricRuleAddr, constant.RuleManagerContractAddr, rk(fix.ChainF), fix.ChainF},
 		"rF2":    {"rF2", "rule", validator.HappyRuleAddr, constant.RuleManagerContractAddr, rk(fix.ChainF), fix.ChainF},
@@ -65,7 +66,7 @@ func (in *c16Inst) c16RuleInvariant(c *mc.Ctx, path []string) {
 
 func c16Rules(c *mc.Ctx, depth int) {
 	ops := []string{"sub:rF0:update", "sub:rF2:update", "sub:rF1:update", "sub:rWh:update", "sub:rWw:update", "sub:rWw:logout", "sub:rF0:logout",
-		"sub:chainF:freeze", "sub:chainF:activate", "sub:chainF:logout", "conclude:approve", "conclude:reject", "restart"}
+		"sub:chainF:freeze", "sub:chainF:activate", "sub:chainF:logout", "conclude:approve", "conclude:reject", "restart", "vprobe:F", "vprobe:T"}
 	b := &mc.BFS{C: c, Name: "govmc-rules", MaxDepth: depth,
 		Init:    func() mc.Instance { return newC16RuleInst() },
 		Enabled: func(x mc.Instance, d int) []string { return ops },
